@@ -3,6 +3,7 @@ import Momo.Proof.ArrFaultDone
 import Momo.Proof.ArrSegFaultOps
 import Momo.Proof.BTreeFaultCopy
 import Momo.Proof.HTLedgerCons
+import Momo.Proof.HTLedgerStrong
 /-!
 # C04 — Strongly exception-safe operations leave the container unchanged on failure
 
@@ -598,6 +599,23 @@ theorem C04_hash_pool_traffic (cfg : Cfg) (st : St) (p : PoolT) (w : W) (FB : Li
   obtain ⟨a1, a2, a3, a4, a5, a6⟩ := poolTraffic_led cfg st p w FB E h
   refine ⟨a1, a2, a3, a4, a5, a6, fun hc => ?_⟩
   rcases hc with hc | hc <;> simp [poolTraffic, hc]
+
+/-- **The strong guarantee at the level of the system the correspondence harness drives** (two containers A, B and a node handle):
+whichever strongly exception-safe operation - `ins` (Insert / emplace / map insertion / subscript insertion, into A or B), `rem`,
+`ext`, `reins` (`Insert(ExtractedItem&&)`: a refused item stays in the handle), `reserve`, `copyTo` (copy assignment) - exits with
+an exception in a reachable state (`SysOK`), under whatever fault record, A, B and the handle are exactly as before (tables, books
+of blocks, books of element objects); `step_ok` says that the monitor still holds exactly these books. -/
+theorem C04_hash_step_strong (cfg : Cfg) (hf : Nat → Nat) (s : Sys) (op : Op) (h : SysOK cfg s) (hs : op.strong = true)
+    (hfail : (step cfg hf s op).2.failed = true) :
+    (step cfg hf s op).1.a = s.a ∧ (step cfg hf s op).1.b = s.b ∧ (step cfg hf s op).1.h = s.h ∧
+    SysOK cfg (step cfg hf s op).1 :=
+  let ⟨h1, h2, h3⟩ := step_strong cfg hf s op h hs hfail
+  ⟨h1, h2, h3, step_ok cfg hf s op h⟩
+
+/-- every reachable state satisfies `SysOK` (the hypothesis of the theorem above and, through `BooksOK`, of the single-container
+theorems of this section) -/
+theorem C04_hash_reachable_ok (cfg : Cfg) (hf : Nat → Nat) (ops : List OpT) : SysOK cfg (run cfg hf (Sys.init cfg) ops) :=
+  run_ok cfg hf ops _ (sysOK_init cfg)
 
 /-! Non-vacuity: an Open2N2-like table of copy-only items with a two-generation state; every kind of failing insertion, a
 failing removal, a failing extraction, a failing copy construction - each leaves table, books and the monitor's holdings as they
